@@ -136,7 +136,14 @@ def gen_true(rng: random.Random, vendor: str, fmt: str, max_l=None):
                     if all(max(e, f) / min(e, f) > 1.6 for f in ex):
                         ex.append(e)
                         break
-            ex.sort(reverse=True)
+            if len(ex) >= 2 and rng.random() < 0.3:
+                # a tight primitive (core-like): matters for exponent-based screening of shell pairs
+                ex[0] = _round_sig(math.exp(rng.uniform(math.log(40.0), math.log(400.0))), 5)
+            # the order of the primitives inside a contraction is free in both formats
+            order = rng.choice(["desc", "desc", "asc", "shuffled"])
+            ex.sort(reverse=(order != "asc"))
+            if order == "shuffled":
+                rng.shuffle(ex)
             cf = [rng.choice([-1, 1]) * rng.uniform(0.2, 1.0) for _ in ex]
             shells.append({"ic": ia, "l": l, "exps": ex, "coefs": cf})
     # kinds are global per l: apply, and check the vendor still allows everything
